@@ -195,7 +195,11 @@ class MarkerExpression(SingleMarker):
                 rhs = {normalize_name(v) for v in rhs}
             else:
                 rhs = normalize_name(rhs)
-        if isinstance(rhs, str):
+        if isinstance(rhs, str) and (
+            self.name in self._VERSION_LIKE_MARKER_NAME
+            or self.name == "implementation_version"
+        ):
+            # only version-valued variables are compared as versions (PEP 508)
             try:
                 # self.op is stored for `name op value`; with the literal on the
                 # left the comparison actually made is `value reflect(op) name`
